@@ -78,7 +78,27 @@ impl std::future::Future for DGateFut { type Output = usize; fn poll(mut self: s
 struct TaskWake(usize);
 impl futures::task::ArcWake for TaskWake { fn wake_by_ref(a: &Arc<Self>) { vsched::harness_event("__task_wake", |_| true); WOKEN[a.0].store(true, SeqCst); } }
 fn task_wait(k: usize) { vsched::harness_event("__task_wait", |_| WOKEN[k].load(SeqCst)); WOKEN[k].store(false, SeqCst); }
-fn open_gate_wake(k: usize) { vsched::harness_event("__gate_open", |_| true); GATE[k].store(true, SeqCst); let w = GATE_WAKER[k].lock().unwrap().take(); if let Some(w) = w { w.wake(); } }
+static GATE_AT: [AtomicUsize; N] = [const { AtomicUsize::new(usize::MAX) }; N];
+static GATE_WOKE: [AtomicBool; N] = [const { AtomicBool::new(false) }; N];
+fn open_gate_wake(k: usize) { vsched::harness_event("__gate_open", |_| true); GATE[k].store(true, SeqCst); GATE_AT[k].store(now(), SeqCst); let w = GATE_WAKER[k].lock().unwrap().take(); if let Some(w) = w { GATE_WOKE[k].store(true, SeqCst); w.wake(); } }
+static FLAGDROP: [AtomicUsize; N] = [const { AtomicUsize::new(0) }; N];
+static STREAM_ENDED: [AtomicBool; N] = [const { AtomicBool::new(false) }; N];
+static PIPE_STARTED: [AtomicUsize; N] = [const { AtomicUsize::new(usize::MAX) }; N];
+struct DropFlag(usize);
+impl Drop for DropFlag { fn drop(&mut self) { FLAGDROP[self.0].fetch_add(1, SeqCst); } }
+struct GateStream { n: usize, ends: bool, idx: usize, pipe: usize, flag: DropFlag, gates: Vec<usize> }
+impl futures::Stream for GateStream {
+    type Item = usize;
+    fn poll_next(mut self: std::pin::Pin<&mut Self>, cx: &mut std::task::Context<'_>) -> std::task::Poll<Option<usize>> {
+        vsched::harness_event("__stream_poll", |_| true);
+        if self.idx < self.n {
+            let g = self.gates[self.idx];
+            if g == 9999 || GATE[g].load(SeqCst) { let k = self.idx; self.idx += 1; std::task::Poll::Ready(Some(k)) }
+            else { *GATE_WAKER[g].lock().unwrap() = Some(cx.waker().clone()); std::task::Poll::Pending }
+        } else if self.ends { STREAM_ENDED[self.pipe].store(true, SeqCst); std::task::Poll::Ready(None) }
+        else { std::task::Poll::Pending }
+    }
+}
 fn fut_done(op: usize, v: usize) { FRES[op].store(v, SeqCst); FRET[op].store(now(), SeqCst); NREADY[op].fetch_add(1, SeqCst); }
 fn op_inv(op: usize) { INV[op].store(now(), SeqCst); }
 fn op_done(op: usize, v: usize) { RES[op].store(v, SeqCst); RET[op].store(now(), SeqCst); }
@@ -90,7 +110,7 @@ fn op_done(op: usize, v: usize) { RES[op].store(v, SeqCst); RET[op].store(now(),
     callers = [t['name'] for t in sc['threads'] if not t.get('final')]
     opid = 0
     handles = []
-    tasks = {}; canaries = {}; gives = []
+    tasks = {}; canaries = {}; gives = []; npipes = [0]
     nslots = max([o[2] for th_ in sc['threads'] for o in th_['ops'] if o[0] == 'd_give'] + [-1]) + 1
     for k_ in range(nslots): L.insert(1, 'static SLOT_%d: std::sync::Mutex<Option<desync::Desync<Canary>>> = std::sync::Mutex::new(None);' % k_)
     for th in sc['threads']:
@@ -159,6 +179,21 @@ fn op_done(op: usize, v: usize) { RES[op].store(v, SeqCst); RET[op].store(now(),
                 var = op[1]; fop, fkind = futvars[var]
                 if op[2] == 'resume': body.append('RESUMED[%d].store(now(), SeqCst); resumers_%s.take().unwrap().resume();' % (fop, var))
                 else: body.append('RESUMED[%d].store(now(), SeqCst); drop(resumers_%s.take());' % (fop, var))
+            elif kind == 'p_new':
+                cid = canaries.setdefault(op[1], len(canaries))
+                body.append('let mut dv_%s = Some(Arc::new(desync::Desync::new(Canary { id: %d })));' % (op[1], cid))
+            elif kind == 'p_drop':
+                cid = canaries[op[1]]
+                body.append('DROPBEGIN[%d].store(now(), SeqCst); drop(dv_%s.take()); DROPEND[%d].store(now(), SeqCst);' % (cid, op[1], cid))
+            elif kind == 'pipe_in':
+                cid = canaries[op[1]]; obj = 10 + cid; b = op[2] if len(op) > 2 else {}
+                gates = [9999 if g == 99 else g for g in b.get('gates', [99])]; n = len(gates); ends = bool(b.get('ends', True))
+                pk = b.get('proc', 'ready'); pgate = pk[1] if isinstance(pk, (list, tuple)) else 9999
+                pid = npipes[0]; npipes[0] += 1; base = opid
+                body.append('{ use futures::FutureExt; let st = GateStream { n: %d, ends: %s, idx: 0, pipe: %d, flag: DropFlag(%d), gates: vec![%s] }; let fl = DropFlag(%d); '
+                            'desync::pipe_in(Arc::clone(dv_%s.as_ref().unwrap()), st, move |c: &mut Canary, item: usize| { let _ = &fl; let op = %d + item; enter(%d, op); touch(c, %d); DGateFut { inner: GateFut { gate: %d, op: op, obj: %d, tok: 40 + op, done: false }, cid: %d }.map(|_| ()).boxed() }); PIPE_STARTED[%d].store(now(), SeqCst); }'
+                            % (n, 'true' if ends else 'false', pid, 2 * pid, ', '.join(map(str, gates)), 2 * pid + 1, op[1], base, obj, cid, pgate, obj, cid, pid))
+                opid += n
             elif kind == 'd_new':
                 cid = canaries.setdefault(op[1], len(canaries))
                 body.append('let mut dv_%s = Some(desync::Desync::new(Canary { id: %d }));' % (op[1], cid))
@@ -199,6 +234,9 @@ fn op_done(op: usize, v: usize) { RES[op].store(v, SeqCst); RET[op].store(now(),
     A('    println!("MEM uaf={}", UAF.load(SeqCst));')
     A('    for i in 0..%d { println!("CANARY {} ndrop={} dropbegin={} dropend={} freedat={}", i, NDROP[i].load(SeqCst), DROPBEGIN[i].load(SeqCst) as isize, DROPEND[i].load(SeqCst) as isize, FREEDAT[i].load(SeqCst) as isize); }' % max(1, len(canaries)))
     A('    for i in 0..%d { println!("OP {} nrun={} inv={} ret={} start={} end={} res={} fret={} fres={} nready={} fdropped={} resumed={} cancelled={}", i, NRUN[i].load(SeqCst), INV[i].load(SeqCst) as isize, RET[i].load(SeqCst) as isize, START[i].load(SeqCst) as isize, END[i].load(SeqCst) as isize, RES[i].load(SeqCst) as isize, FRET[i].load(SeqCst) as isize, FRES[i].load(SeqCst) as isize, NREADY[i].load(SeqCst), FDROPPED[i].load(SeqCst) as isize, RESUMED[i].load(SeqCst) as isize, CANCELLED[i].load(SeqCst)); }' % opid)
+    A('    for i in 0..8 { println!("FLAG {} ndrop={}", i, FLAGDROP[i].load(SeqCst)); }')
+    A('    for i in 0..8 { println!("GATE {} open={} at={} woke={}", i, GATE[i].load(SeqCst), GATE_AT[i].load(SeqCst) as isize, GATE_WOKE[i].load(SeqCst)); }')
+    A('    for i in 0..4 { println!("PIPE {} ended={} started={}", i, STREAM_ENDED[i].load(SeqCst), PIPE_STARTED[i].load(SeqCst) as isize); }')
     for q in range(nq): A('    println!("QUEUE %d {}", std::panic::catch_unwind(std::panic::AssertUnwindSafe(|| format!("{:?}", q%d))).unwrap_or("POISONED".to_string()));' % (q, q))
     A('    std::process::exit(0);')
     A('}')
@@ -221,6 +259,8 @@ def run_replay(spec, schedule, keep=None):
                            capture_output=True, text=True, timeout=600)
         out = p.stdout
         if 'VERDICT' not in out:
+            try: open(os.path.join(VERIF, 'scratch', 'last_replay_error.txt'), 'w').write('rc=%s\n--- stderr\n%s\n--- stdout\n%s' % (p.returncode, p.stderr[-6000:], out[-6000:]))
+            except Exception: pass
             return {'status': 'error', 'detail': (p.stderr[-1500:] + out[-500:]), 'wall_s': round(time.time() - t0, 1)}
         return parse_output(out, time.time() - t0)
     finally:
@@ -244,6 +284,12 @@ def parse_output(out, wall):
         elif line.startswith('CANARY '):
             m = re.match(r'CANARY (\d+) ndrop=(\d+) dropbegin=(-?\d+) dropend=(-?\d+) freedat=(-?\d+)', line)
             r.setdefault('canaries', {})[int(m.group(1))] = dict(ndrop=int(m.group(2)), dropbegin=int(m.group(3)), dropend=int(m.group(4)), freedat=int(m.group(5)))
+        elif line.startswith('FLAG '):
+            m = re.match(r'FLAG (\d+) ndrop=(\d+)', line); r.setdefault('flags', {})[int(m.group(1))] = int(m.group(2))
+        elif line.startswith('GATE '):
+            m = re.match(r'GATE (\d+) open=(\w+) at=(-?\d+) woke=(\w+)', line); r.setdefault('gates', {})[int(m.group(1))] = dict(open=m.group(2) == 'true', at=int(m.group(3)), woke=m.group(4) == 'true')
+        elif line.startswith('PIPE '):
+            m = re.match(r'PIPE (\d+) ended=(\w+) started=(-?\d+)', line); r.setdefault('pipes', {})[int(m.group(1))] = dict(ended=m.group(2) == 'true', started=int(m.group(3)))
         elif line.startswith('QUEUE '):
             m = re.match(r'QUEUE (\d+) (.*)', line); r['queues'][int(m.group(1))] = m.group(2)
     return r
@@ -286,6 +332,45 @@ def judge(spec, viol, rr):
                 if q in sick:
                     if 'POISONED' not in s and 'State: Panicked' not in s: bad.append('panicked queue%d is %s' % (q, s))
                 elif 'State: Idle, Pending: 0' not in s: bad.append('healthy queue%d %s' % (q, s))
+        return ('reproduced', '; '.join(bad)) if bad else ('not_reproduced', '')
+    if oracle == 'pipe_in':
+        bad = []
+        dropped = {}
+        cids = {}
+        for th in sc['threads']:
+            for op in th['ops']:
+                if op[0] in ('d_new', 'p_new'): cids.setdefault(op[1], len(cids))
+        hasdrop = set(op[1] for th in sc['threads'] for op in th['ops'] if op[0] == 'p_drop')
+        pipes = {}
+        for k, o in ops.items():
+            if o['kind'] == 'pipe_item': pipes.setdefault(o['pipe_base'], []).append(k)
+        for pid, (base, ks) in enumerate(sorted(pipes.items())):
+            o0 = ops[base]
+            for a in ks:
+                for b_ in ks:
+                    if a < b_ and rr['ops'][b_]['start'] >= 0 and not (0 <= rr['ops'][a]['end'] < rr['ops'][b_]['start']):
+                        bad.append('item %d started before item %d finished' % (b_ - base, a - base))
+            if unfinished: continue
+            can = rr.get('canaries', {}).get(cids[o0['var']], {})
+            gone = can.get('dropend', -1) >= 0
+            gt = rr.get('gates', {})
+            if not gone:
+                allopen = True
+                for j, kk in enumerate(ks):
+                    g_ = o0['gates'][j]
+                    allopen = allopen and (g_ == 99 or gt.get(g_, {}).get('open'))
+                    if allopen and (rr['ops'][kk]['nrun'] != 1 or rr['ops'][kk]['end'] < 0): bad.append('item %d available but nrun=%d end=%d at quiescence' % (j, rr['ops'][kk]['nrun'], rr['ops'][kk]['end']))
+                if allopen and o0['ends']:
+                    for f_ in (2 * pid, 2 * pid + 1):
+                        if rr.get('flags', {}).get(f_) != 1: bad.append('stream ended but %s not released (drops=%s)' % ('stream' if f_ % 2 == 0 else 'closure', rr.get('flags', {}).get(f_)))
+            else:
+                if can.get('ndrop') != 1: bad.append('pipe_in keeps the Desync alive: payload drops=%s after the last reference was dropped' % can.get('ndrop'))
+                late = [g_ for g_ in o0['gates'] if g_ != 99 and gt.get(g_, {}).get('woke') and gt[g_]['at'] > can['dropend']]
+                if late:
+                    for f_ in (2 * pid, 2 * pid + 1):
+                        if rr.get('flags', {}).get(f_) != 1: bad.append('stream event after the Desync was gone but %s not released (drops=%s)' % ('stream' if f_ % 2 == 0 else 'closure', rr.get('flags', {}).get(f_)))
+            for f_ in (2 * pid, 2 * pid + 1):
+                if rr.get('flags', {}).get(f_, 0) > 1: bad.append('flag %d dropped %d times' % (f_, rr['flags'][f_]))
         return ('reproduced', '; '.join(bad)) if bad else ('not_reproduced', '')
     if oracle == 'quiescent_complete':
         bad = []
@@ -378,6 +463,14 @@ def opinfo(sc):
     ops = {}; k = 0; dcan = {}
     for th in sc['threads']:
         for op in th['ops']:
+            if op[0] in ('d_new', 'p_new'): dcan.setdefault(op[1], len(dcan))
+            if op[0] == 'pipe_in':
+                b = op[2] if len(op) > 2 else {}
+                gates = list(b.get('gates', [99])); cid = dcan.setdefault(op[1], len(dcan))
+                for j, g_ in enumerate(gates):
+                    ops[k] = {'kind': 'pipe_item', 'obj': 10 + cid, 'thread': th['name'], 'probe': False, 'idx': th['ops'].index(op), 'gated': False, 'item': j, 'gate': g_, 'pipe_base': k - j, 'n': len(gates), 'ends': bool(b.get('ends', True)), 'gates': gates, 'var': op[1]}
+                    k += 1
+                continue
             if op[0] in ('sync', 'desync', 'try_sync', 'future_desync', 'future_sync', 'suspend', 'd_desync', 'd_sync', 'd_try_sync', 'd_future_desync'):
                 b = op[2] if len(op) > 2 else {}
                 if op[0].startswith('d_'):
